@@ -867,5 +867,208 @@ theorem runEdge_inner_valid (c : Config α) (source tgt : Nat) (sched : List Nat
   subst htree
   exact hv1 v b hb
 
+/-- a successful `run_a_star` towards a target other than the source extends to a successful
+`run_vertex_oriented` with the same final state (the backtrack cannot fail) -/
+theorem runVertexOriented_of_runAStar {I : Inst α} (hI : WF I) {source t : Nat} (hts : t ≠ source)
+    {sched : List Nat} {s : SState α} (h : runAStar I source (some t) sched = .ok s) :
+    ∃ res, runVertexOriented I source (some t) sched = .ok res ∧ res.final = s := by
+  cases hr : runVertexOriented I source (some t) sched with
+  | error k =>
+    have := SearchTree.runVertexOriented_error hI source t sched k hts hr
+    rw [h] at this
+    cases this
+  | ok res =>
+    have := (runVertexOriented_some hr).1
+    rw [h] at this
+    injection this with this
+    exact ⟨res, rfl, this.symm⟩
+
+/-! ## D. Non-vacuity
+
+* `SearchTree.Example.inst` (parallel pair, self loop): entry validity on an actual run;
+* `SearchOpt.Example.exInst` (forbidden shortcut edge 6, admissible but inconsistent heuristic, the
+  run re-labels two vertices): A1/A2 and route optimality on an actual A* run;
+* `exConfig`, a concrete configuration (distance traversal model, raw distance cost, two self
+  loops, a cycle): the three cases of the edge-oriented wrapper on actual runs. -/
+
+namespace Example
+
+open SearchOpt.Example
+
+/-- the run of `SearchTree.Example` succeeds -/
+theorem tree_run_ok :
+    ∃ res, runVertexOriented SearchTree.Example.inst 0 (some 2) [0, 1, 2] = .ok res := by
+  cases h : runVertexOriented SearchTree.Example.inst 0 (some 2) [0, 1, 2] with
+  | error k =>
+    have : SearchTree.Example.routeEdges
+        (runVertexOriented SearchTree.Example.inst 0 (some 2) [0, 1, 2]) = some [0, 3] := by
+      decide +kernel
+    rw [h] at this
+    simp [SearchTree.Example.routeEdges] at this
+  | ok res => exact ⟨res, rfl⟩
+
+/-- A on an actual run: the target's entry exists and is `EntryOK` -/
+example : ∃ res b, runVertexOriented SearchTree.Example.inst 0 (some 2) [0, 1, 2] = .ok res ∧
+    res.final.sol 2 = some b ∧ EntryOK SearchTree.Example.inst b := by
+  obtain ⟨res, hres⟩ := tree_run_ok
+  obtain ⟨_, hsome, _⟩ := SearchTree.runVertexOriented_route SearchTree.Example.inst_wf 0 2
+    [0, 1, 2] res (by decide) hres
+  obtain ⟨b, hb⟩ := Option.isSome_iff_exists.1 hsome
+  exact ⟨res, b, hres, hb, (runVertexOriented_validInv _ 0 (some 2) [0, 1, 2] res hres).1 2 b hb⟩
+
+/-- the A* run of `SearchOpt.Example` as a `run_vertex_oriented` run -/
+theorem opt_run_ok : ∃ res, runVertexOriented exInst 0 (some 3) [0, 1, 2, 3] = .ok res ∧
+    res.final.g 3 = some 3 := by
+  obtain ⟨s, hs, hg⟩ := ex_run_ok
+  obtain ⟨res, hres, hfin⟩ := runVertexOriented_of_runAStar
+    (wf_of_uniformCost ex_uniform.toUniformCost) (by decide) hs
+  exact ⟨res, hres, by rw [hfin]; exact hg⟩
+
+/-- A1/A2 on that run: the forbidden edge 6 is in no tree entry and not in the route -/
+example : ∃ res route, runVertexOriented exInst 0 (some 3) [0, 1, 2, 3] = .ok res ∧
+    res.route = some route ∧ (∀ v b, res.final.sol v = some b → b.edge ≠ 6) ∧
+    6 ∉ route.map (·.edge) := by
+  obtain ⟨res, hres, _⟩ := opt_run_ok
+  obtain ⟨route, _, hr, _⟩ := route_optimal ex_uniform (by decide) ex_admissible hres
+  obtain ⟨h1, h2⟩ := route_edges_ok ex_uniform.valid_eq hres
+  refine ⟨res, route, hres, hr, ?_, ?_⟩
+  · intro v b hb h6
+    have := h1 v b hb
+    rw [h6] at this
+    exact absurd this (by decide)
+  · intro h6
+    exact absurd (h2 route hr 6 h6) (by decide)
+
+/-- B on that run: the returned route is a valid walk `0 ⇝ 3` of summed cost 3, and every valid
+walk `0 ⇝ 3` costs at least 3 (the shortcut edge 6 of cost 1 is forbidden) -/
+example : ∃ res route, runVertexOriented exInst 0 (some 3) [0, 1, 2, 3] = .ok res ∧
+    res.route = some route ∧ Walk exInst exOk 0 (route.map (·.edge)) 3 ∧
+    (route.map (fun b => b.access + b.traversal)).sum = 3 ∧
+    ∀ es, Walk exInst exOk 0 es 3 → 3 ≤ cost exCost es := by
+  obtain ⟨res, hres, hg⟩ := opt_run_ok
+  obtain ⟨route, d, hr, _, hw, _, hd, hsum, hmin⟩ :=
+    route_optimal ex_uniform (by decide) ex_admissible hres
+  rw [hg] at hd
+  have hd3 : (3 : ℚ) = d := by simpa using hd
+  subst hd3
+  exact ⟨res, route, hres, hr, hw, hsum, fun es hes => hsum ▸ hmin es hes⟩
+
+/-- six edges on four vertices: 0: 0→1, 1: 1→2, 2: 2→3, 3: 1→1 (self loop at the origin edge's
+head), 4: 3→1 (closes a cycle), 5: 2→2 (self loop at the destination edge's tail); distance
+traversal model in metres, cost = raw distance -/
+def exConfig : Config ℚ where
+  nV := 4
+  edges := [⟨0, 1, 1000⟩, ⟨1, 2, 2000⟩, ⟨2, 3, 500⟩, ⟨1, 1, 100⟩, ⟨3, 1, 700⟩, ⟨2, 2, 50⟩]
+  outAdj := [[0], [1, 3], [2, 5], [4]]
+  inAdj := [[], [0, 3, 4], [1, 5], [2]]
+  feats := [{ name := "distance", kind := .dist .meters, init := 0 }]
+  trav := .distance .meters
+  access := .noAccess
+  cost := { indices := [0], weights := [1], vehicleRates := [.raw], networkRates := [.zero],
+            agg := .sum }
+  frontier := []
+  term := .iters 100
+  reverse := false
+  gc := [0, 0, 0, 0]
+  wf := none
+
+theorem exConfig_adj : exConfig.AdjConsistent := by
+  intro v e he
+  match v with
+  | 0 => simp [Config.inst, exConfig] at he; subst he; rfl
+  | 1 => simp [Config.inst, exConfig] at he; rcases he with rfl | rfl <;> rfl
+  | 2 => simp [Config.inst, exConfig] at he; rcases he with rfl | rfl <;> rfl
+  | 3 => simp [Config.inst, exConfig] at he; subst he; rfl
+  | n + 4 => simp [Config.inst, exConfig] at he
+
+/-- decidable observations of a wrapper result (trees are functions) -/
+def routeEdgesOf (r : Except ErrKind (AlgResult ℚ)) : Option (List (List Nat)) :=
+  match r with
+  | .ok res => some (res.routes.map (·.map (·.edge)))
+  | .error _ => none
+
+def routeCostsOf (r : Except ErrKind (AlgResult ℚ)) : Option (List (List ℚ)) :=
+  match r with
+  | .ok res => some (res.routes.map (·.map (fun b => b.access + b.traversal)))
+  | .error _ => none
+
+/-- (terminal, edge) of the entries of each tree at the listed vertices -/
+def treeEntriesOf (r : Except ErrKind (AlgResult ℚ)) (vs : List Nat) :
+    Option (List (List (Option (Nat × Nat)))) :=
+  match r with
+  | .ok res =>
+    some (res.trees.map (fun t => vs.map (fun v => (t v).map (fun b => (b.terminal, b.edge)))))
+  | .error _ => none
+
+theorem ok_of_routeEdgesOf {r : Except ErrKind (AlgResult ℚ)} {l : List (List Nat)}
+    (h : routeEdgesOf r = some l) : ∃ res, r = .ok res := by
+  cases r with
+  | error k => simp [routeEdgesOf] at h
+  | ok res => exact ⟨res, rfl⟩
+
+/-- non-adjacent case, origin edge 0 (0→1), destination edge 2 (2→3): the route is `[0, 1, 2]` with
+costs `[0, 2000, 0]`, and `edge_oriented_route_walk` applies to it -/
+example : routeEdgesOf (exConfig.runEdge 0 (some 2) [1, 2]) = some [[0, 1, 2]] ∧
+    routeCostsOf (exConfig.runEdge 0 (some 2) [1, 2]) = some [[0, 2000, 0]] := by
+  decide +kernel
+
+example : ∃ r route, exConfig.runEdge 0 (some 2) [1, 2] = .ok r ∧ r.routes = [route] ∧
+    (route.map (·.edge)).Nodup ∧
+    (∀ i (hi : i + 1 < route.length),
+      exConfig.inst.keyV route[i].edge = exConfig.inst.termV route[i + 1].edge) := by
+  obtain ⟨r, hr⟩ := ok_of_routeEdgesOf
+    (show routeEdgesOf (exConfig.runEdge 0 (some 2) [1, 2]) = some [[0, 1, 2]] by decide +kernel)
+  obtain ⟨route, h1, _, _, _, h5, _, h7⟩ :=
+    edge_oriented_route_walk exConfig exConfig_adj rfl 0 2 [1, 2] r (by decide) hr
+  exact ⟨r, route, hr, h1, h7, h5⟩
+
+/-- a longer inner route through the cycle: origin edge 0 (0→1), destination edge 4 (3→1) whose
+head is the inner source; route `[0, 1, 2, 4]` -/
+example : routeEdgesOf (exConfig.runEdge 0 (some 4) [1, 2, 3]) = some [[0, 1, 2, 4]] := by
+  decide +kernel
+
+/-- adjacent case, origin edge 0 (0→1), destination edge 1 (1→2): both edges really traversed -/
+example : routeEdgesOf (exConfig.runEdge 0 (some 1) []) = some [[0, 1]] ∧
+    routeCostsOf (exConfig.runEdge 0 (some 1) []) = some [[1000, 2000]] := by
+  decide +kernel
+
+example : ∃ r b1 b2, exConfig.runEdge 0 (some 1) [] = .ok r ∧ r.routes = [[b1, b2]] ∧
+    0 < b1.access + b1.traversal ∧ 0 < b2.access + b2.traversal := by
+  obtain ⟨r, hr⟩ := ok_of_routeEdgesOf
+    (show routeEdgesOf (exConfig.runEdge 0 (some 1) []) = some [[0, 1]] by decide +kernel)
+  obtain ⟨b1, b2, h1, _, _, _, _, _, _, _, _, hp1, hp2, _⟩ :=
+    runEdge_adjacent_walk exConfig rfl 0 1 [] r ⟨0, 1, 1000⟩ ⟨1, 2, 2000⟩ rfl rfl (by decide) rfl hr
+  exact ⟨r, b1, b2, hr, h1, hp1, hp2⟩
+
+/-- destination-less case, origin edge 4 (3→1): the tree gets the origin entry `1 ↦ (3, edge 4)`.
+Its `terminal` 3 is reachable from the inner source 1, so the parent pointers of the returned tree
+form a cycle `1 → 3 → 2 → 1`: `SearchTree.tree_rooted` holds of the inner tree, not of the tree the
+wrapper returns (a root must be recognised as "the origin edge's head", not as "has no entry"). -/
+example : treeEntriesOf (exConfig.runEdge 4 none [1, 2, 3]) [0, 1, 2, 3] =
+    some [[none, some (3, 4), some (1, 1), some (2, 2)]] := by
+  decide +kernel
+
+example : ∃ r tree, exConfig.runEdge 4 none [1, 2, 3] = .ok r ∧ r.trees = [tree] ∧
+    tree 1 = some (originBranch exConfig 4 ⟨3, 1, 700⟩) ∧ r.routes = [] := by
+  cases hr : exConfig.runEdge 4 none [1, 2, 3] with
+  | error k =>
+    have : treeEntriesOf (exConfig.runEdge 4 none [1, 2, 3]) [] = some [[]] := by decide +kernel
+    rw [hr] at this
+    simp [treeEntriesOf] at this
+  | ok r =>
+    obtain ⟨_, _, tree, _, _, _, h4, _, h6, _, _, h9, _⟩ :=
+      runEdge_none_tree exConfig exConfig_adj 4 [1, 2, 3] r ⟨3, 1, 700⟩ rfl hr
+    exact ⟨r, tree, rfl, h6, h9, h4⟩
+
+/-- the hypothesis `c.reverse = false` of `edge_oriented_route_walk` is needed: the wrapper takes
+`e1.dst` / `e2.src` in graph orientation whatever the direction, and in a reverse search from edge
+0 to edge 2 on the same network it returns `[0, 4, 2, 2]` — the destination edge twice, and no walk
+in either orientation.  (`SearchApp::run_edge_oriented` always passes `Direction::Forward`.) -/
+example : routeEdgesOf ({ exConfig with reverse := true }.runEdge 0 (some 2) [1, 3, 0, 2]) =
+    some [[0, 4, 2, 2]] := by
+  decide +kernel
+
+end Example
+
 end SearchRoute
 end Compass
